@@ -269,6 +269,16 @@ macro_rules! stack_script {
                             ctx.label("reimport_with_set_bit_below_terminator");
                             ctx.nontrivial();
                         }
+                        if bits.is_empty() {
+                            // "will return with a success if called with an empty backend": an empty stack, on which the
+                            // history continues
+                            coder = match Coder::from_compressed(Vec::new()) {
+                                Ok(c) => c,
+                                Err(_) => vfail_if!(mode == 16, ctx, "C16/stack_reimport_rejected", "from_compressed rejected an empty backend"),
+                            };
+                            vcheck_if!(mode == 16, ctx, coder.len() == 0 && coder.is_empty(), "C16/stack_reimport_len", "a coder imported from an empty backend reports len {} is_empty {}", coder.len(), coder.is_empty());
+                            ctx.label("reimport_from_empty_backend");
+                        }
                         ctx.label("reimport");
                     }
                     7 => {
